@@ -7,10 +7,12 @@ p = None
 for l in open('/verif/properties.jsonl'):
     q = json.loads(l)
     if q['id'] == pid: p = q
-d = f"/tmp/seed6/{pid}"
-print(f"""You are helping test a verification framework by producing a realistic, subtle bug ("seeded change") in a Go program. Work ONLY inside the git worktree {d} (a checkout of the Go module github.com/google/go-tdx-guest). Do not read or write anything under /verif or /repo. There is no network; use these env vars for every go command: `export GOFLAGS=-mod=mod GOPROXY=off GOSUMDB=off GOTOOLCHAIN=local`. IMPORTANT: do NOT use `git stash` and do NOT commit; to test the original code use `git diff > /tmp/seed6/{pid}.my.diff; git apply -R /tmp/seed6/{pid}.my.diff; ...run...; git apply /tmp/seed6/{pid}.my.diff`.
+import os
+R = os.environ.get("SEED_ROOT","/tmp/seed7")
+d = f"{R}/{pid}"
+print(f"""You are helping test a verification framework by producing a realistic, subtle bug ("seeded change") in a Go program. Work ONLY inside the git worktree {d} (a checkout of the Go module github.com/google/go-tdx-guest). Do not read or write anything under /verif or /repo. There is no network; use these env vars for every go command: `export GOFLAGS=-mod=mod GOPROXY=off GOSUMDB=off GOTOOLCHAIN=local`. IMPORTANT: do NOT use `git stash` and do NOT commit; to test the original code use `git diff > {R}/{pid}.my.diff; git apply -R {R}/{pid}.my.diff; ...run...; git apply {R}/{pid}.my.diff`.
 
-The property the program is supposed to satisfy — the full statement (JSON, with the code anchors and the reason the existing tests cannot settle it) is in /tmp/seed6/{pid}.prop.txt; read it first. Title: {pid}: {p['title']}.
+The property the program is supposed to satisfy — the full statement (JSON, with the code anchors and the reason the existing tests cannot settle it) is in {R}/{pid}.prop.txt; read it first. Title: {pid}: {p['title']}.
 
 Your task: make ONE small change to the source (non-test .go files only) that BREAKS this property while:
  1. the code still compiles (`go build ./...`),
@@ -20,6 +22,6 @@ Preferred area for this round (use it if you can find a good change there, other
 
 Then write a demonstration: a NEW Go test file in the worktree (name it seeded_demo_test.go in the relevant package, using the package's existing test helpers/testdata where useful) with a test that FAILS with your change and PASSES on the original code. Verify both, and verify that the whole existing suite passes with the change when the demo file is absent.
 
-Deliver inside {d}: the source change left applied (uncommitted), the demo test file, and SEED_NOTES.md (what you changed, why it breaks the property, what is needed to manifest, exact commands and results). Finally run `git -C {d} diff > /tmp/seed6/{pid}.patch.diff` (the diff must contain only the source change, not the new untracked files).
+Deliver inside {d}: the source change left applied (uncommitted), the demo test file, and SEED_NOTES.md (what you changed, why it breaks the property, what is needed to manifest, exact commands and results). Finally run `git -C {d} diff > {R}/{pid}.patch.diff` (the diff must contain only the source change, not the new untracked files).
 
 Report back briefly: file(s)/function changed, the condition needed to manifest, and confirmation of the fail/pass runs.""")
